@@ -8,7 +8,7 @@ import numpy as np
 from ..gen import cards, lik
 
 LEVEL = "exploration"
-SHARDS = {"quick": 14, "thorough": 16}
+SHARDS = {"quick": 18, "thorough": 16}
 TIMEOUT = {"quick": 800, "thorough": 3400}
 THREADS = {"quick": 1, "thorough": 1}
 RULE = (
@@ -30,7 +30,8 @@ REQUIRE = {
     "monitors": {"gradient == dNLL/dx (FD of __call__)": 10, "Hessian == d grad/dx (FD of nll_grad)": 5, "Hessian symmetric": 5,
                  "value alongside gradient/Hessian == stand-alone value": 10, "gradient independent of batch size": 8,
                  "Hessian-vector product == H@p": 1, "transformed coordinates: gradient": 3, "transformed coordinates: Hessian": 1,
-                 "CombineFCN: value/gradient alongside Hessian == stand-alone": 2, "CombineFCN: Hessian == d grad/dx (directional FD)": 1},
+                 "CombineFCN: value/gradient alongside Hessian == stand-alone": 2, "CombineFCN: Hessian == d grad/dx (directional FD)": 1,
+                 "Hessian after the free set changed and was restored": 3},
     "cover": {"model": ["default", "extended", "cfit", "cfit_cached", "cfit_extended", "cached_int", "cached_amp", "simple", "simple_cfit"],
               "hessian_model": ["default", "extended", "cfit", "cfit_cached", "cfit_extended", "cached_int", "cached_amp", "simple", "simple_cfit"]},
     "min_nontrivial": {"quick": 8, "thorough": 200},
@@ -382,6 +383,48 @@ def run(ctx):
                 del comb
             except Exception as e:
                 ctx.violation("CombineFCN: value/gradient alongside Hessian == stand-alone", ctx.exc_witness(e, **desc()), mechanism="CombineFCN derivatives raise (%s)" % model)
+        # (h) history on the SAME likelihood object: one parameter is fixed (the Hessian of the reduced set is evaluated), then freed again,
+        # which moves it to the end of the free-parameter list.  At the same point the Hessian / Hessian-vector product must be the
+        # FD-validated one above with rows and columns permuted (caches inside the object must follow the free set and its order).
+        if H is not None and (cfg.gauss_constr_dic or ctx.tier == "thorough"):
+            tied = {n_ for grp in card["config"].get("constrains", {}).get("var_equal", []) for n_ in grp}
+            cand = [k_ for k_ in tv[:-1] if k_ not in tied]
+            if cand:
+                a_fix = cand[0]
+                hmax_ = float(np.max(np.abs(H))) + 1e-12
+                try:
+                    with quiet():
+                        vm.set_fix(a_fix)
+                        tv_r = list(vm.trainable_vars)
+                        xd_ = dict(zip(tv, x0))
+                        H_r = fcn.nll_grad_hessian({k_: xd_[k_] for k_ in tv_r})[2] if ctx.tier == "thorough" else None
+                        vm.set_fix(a_fix, unfix=True)
+                        tv_p = list(vm.trainable_vars)
+                        _, g_p, H_p = fcn.nll_grad_hessian({k_: xd_[k_] for k_ in tv_p})
+                        p_vec = rng.normal(size=len(tv_p))
+                        hp_p = None
+                        if ctx.tier == "thorough":  # the forward-over-reverse trace costs ~50 s
+                            try:
+                                _, hp_p = fcn.grad_hessp({k_: xd_[k_] for k_ in tv_p}, p_vec)
+                                hp_p = np.asarray(hp_p, dtype=float)
+                            except NotImplementedError:
+                                hp_p = None
+                    H_p = np.asarray(H_p, dtype=float)
+                    keep = [tv.index(k_) for k_ in tv_r]
+                    perm = [tv.index(k_) for k_ in tv_p]
+                    d_r = 0.0
+                    if H_r is not None:
+                        d_r = float(np.max(np.abs(np.asarray(H_r, dtype=float) - H[np.ix_(keep, keep)])) / hmax_) if set(tv_r) == set(tv) - {a_fix} else np.inf
+                    d_p = float(np.max(np.abs(H_p - H[np.ix_(perm, perm)])) / hmax_) if sorted(tv_p) == sorted(tv) else np.inf
+                    d_h = 0.0 if hp_p is None else float(np.max(np.abs(hp_p - H[np.ix_(perm, perm)] @ p_vec)) / (np.max(np.abs(H @ np.ones(len(tv)))) + hmax_))
+                    ctx.check("Hessian after the free set changed and was restored", d_r <= 1e-6 and d_p <= 1e-6 and d_h <= 1e-4,
+                              lambda: dict(desc(), fixed_then_freed=a_fix, order_before=tv, order_after=tv_p, reduced_dev=d_r, permuted_dev=d_p, hessp_dev=d_h,
+                                           gauss_constraints=sorted(cfg.gauss_constr_dic) if cfg.gauss_constr_dic else []),
+                              mechanism="Hessian after fix/free of another parameter (%s)%s" % (model, " with gaussian constraint" if cfg.gauss_constr_dic else ""))
+                    ctx.covered("history_fix_free_constraint", bool(cfg.gauss_constr_dic))
+                except Exception as e:
+                    ctx.violation("Hessian after the free set changed and was restored", ctx.exc_witness(e, fixed_then_freed=a_fix, **desc()),
+                                  mechanism="Hessian after fix/free raises (%s)" % model)
         if i < ctx.nshards:
             ctx.sample({"model": model, "free_parameters": tv, "nll": v0, "gradient": g, "fd_gradient": fd}, limit=2)
         del fcn
